@@ -209,6 +209,40 @@ def extract_syntax():
     write_if_changed(os.path.join(GEN, "Grammar.lean"), t)
     return 0
 
+# ---------------------------------------------------------------------------------------------
+# C16: typing table of the built-in pipes (pipe/pipe_executors.rs) and the builder's family-name format  [agent-refproof]
+# ---------------------------------------------------------------------------------------------
+def extract_pipes():
+    src = open(os.path.join(SRC, "pipe/pipe_executors.rs")).read()
+    as_to_ty = {"as_string_data": "String", "as_parser": "Parser", "as_pre_model": "PreModel", "as_model": "Model",
+                "as_linear_model": "LinearModel", "as_standard_linear_model": "StandardLinearModel", "as_tableau": "Tableau"}
+    rows = []
+    blocks = re.split(r"(?=impl Pipeable for \w+ \{)", src)[1:]
+    for b in blocks:
+        name = re.match(r"impl Pipeable for (\w+) \{", b).group(1)
+        body = b.split("\n//--------------------")[0]
+        m_in = re.search(r"data\.(as_\w+)\(\)\?", body)
+        outs = set(re.findall(r"Ok\(PipeableData::(\w+)\(", body))
+        errs = set(re.findall(r"PipeError::(\w+)", body)) - {"InvalidData"}
+        if not m_in or m_in.group(1) not in as_to_ty or len(outs) > 1 or len(errs) > 1:
+            print(f"extractor could not re-read: pipe {name} (input {m_in and m_in.group(1)}, outputs {outs}, errors {errs})")
+            return 1
+        rows.append((name, as_to_ty[m_in.group(1)], next(iter(outs), ""), next(iter(errs), "-")))
+    mb = open(os.path.join(SRC, "builder/model.rs")).read()
+    fam = re.search(r'self\.add_var\(format!\("([^"]*)"\), var_type\)', mb)
+    if not fam or not rows:
+        print("extractor could not re-read: add_vars family-name format / pipe executors")
+        return 1
+    t = "/- GENERATED by tools/extract.py from pipe/pipe_executors.rs and builder/model.rs — do not edit. -/\nnamespace Rooc.Gen\n"
+    t += "/-- (pipe struct, variant it reads with `as_X()?`, variant it produces (\"\" = none), its `PipeError` variant (\"-\" = cannot fail)) -/\n"
+    t += "def pipeTable : List (String × String × String × String) :=\n  [" + ",\n   ".join(
+        f"({lstr(a)}, {lstr(b)}, {lstr(c)}, {lstr(d)})" for a, b, c, d in rows) + "]\n"
+    t += "/-- the `format!` string of `ModelBuilder::add_vars` member names -/\n"
+    t += f"def familyNameFormat : String := {lstr(fam.group(1))}\n"
+    t += "end Rooc.Gen\n"
+    write_if_changed(os.path.join(GEN, "PipeTable.lean"), t)
+    return 0
+
 def extract_pre():
     """constants of the front half (C06 / C18 / C19 models): reserved names, builtin names, std constants,
     the range size cap -> lean/Rooc/Gen/PreConsts.lean  [agent-pre]"""
@@ -378,6 +412,9 @@ def main():
     t += "end Rooc.Gen\n"
     write_if_changed(os.path.join(GEN, "Consts.lean"), t)
     rc = extract_syntax()
+    if rc:
+        return rc
+    rc = extract_pipes()
     if rc:
         return rc
     rc = extract_pre()
